@@ -122,7 +122,108 @@ fn spec_for(rng: &mut Rng, family: u64) -> Spec {
     }
 }
 
+/// Every option of `rcomp --help` that maps to a setting, as a single toggle
+/// away from the default (flag sweep, DESIGN.md 4/C17 oracle 2).
+pub const TOGGLES: [&str; 24] = [
+    "force-off", "dot", "noactions", "trace", "out-dirs", "prefer-shifts", "no-shifts-over-empty", "table-lalr", "table-lalr-rn",
+    "glr", "arrays", "lexer-custom", "input-type-bytes", "builder-generic", "builder-custom", "builder-loc-info",
+    "most-specific-off", "longest-match-off", "glr-grammar-order-on", "fancy-regex", "partial-parse", "no-skip-ws", "print-table",
+    "glr-arrays-loc-info",
+];
+
+pub fn apply_toggle(s: &mut Spec, t: &str) {
+    match t {
+        "force-off" => s.force = false,
+        "dot" => s.dot = true,
+        "noactions" => s.actions = false,
+        "trace" => s.trace = true,
+        "out-dirs" => s.out_dirs = true,
+        "prefer-shifts" => s.prefer_shifts = true,
+        "no-shifts-over-empty" => s.prefer_shifts_over_empty = false,
+        "table-lalr" => s.table = 0,
+        "table-lalr-rn" => s.table = 2,
+        "glr" => *s = Spec { out_dirs: s.out_dirs, ..Spec::glr_default() },
+        "arrays" => s.arrays = true,
+        "lexer-custom" => s.custom_lexer = true,
+        "input-type-bytes" => {
+            s.custom_lexer = true;
+            s.input_type = "[u8]".into();
+        }
+        "builder-generic" => s.builder = 1,
+        "builder-custom" => s.builder = 2,
+        "builder-loc-info" => s.loc_info = true,
+        "most-specific-off" => s.most_specific = false,
+        "longest-match-off" => s.longest_match = false,
+        "glr-grammar-order-on" => {
+            *s = Spec::glr_default();
+            s.grammar_order = true;
+        }
+        "fancy-regex" => s.fancy = true,
+        "partial-parse" => s.partial = true,
+        "no-skip-ws" => s.skip_ws = false,
+        "print-table" => s.print_table = true,
+        "glr-arrays-loc-info" => {
+            *s = Spec::glr_default();
+            s.arrays = true;
+            s.loc_info = true;
+        }
+        _ => {}
+    }
+}
+
+/// Grammars of the flag sweep: small corpus files, evenly spread.
+pub fn sweep_grammars(ctx: &Ctx) -> Vec<GrammarSrc> {
+    // grammars on which table type / prefer-shift flags are known to matter,
+    // if the repository still has them, then an even spread
+    let preferred = ["special/lalr_reduce_reduce_conflict/", "ambiguity/reduce_empty_1", "ambiguity/reduce_empty_2", "special/pager_g1/", "special/lalrpop768/", "ambiguity/prio_assoc_prod"];
+    let mut out: Vec<GrammarSrc> = vec![];
+    for p in preferred {
+        if let Some(g) = ctx.corpus.iter().find(|g| g.id.starts_with("repo:") && g.id.contains(p)) {
+            out.push(g.clone());
+        }
+    }
+    let small: Vec<&GrammarSrc> = ctx.corpus.iter().filter(|g| g.bytes.len() < 1500 && g.id.starts_with("repo:")).collect();
+    let step = (small.len() / 12).max(1);
+    for g in small.into_iter().step_by(step) {
+        if out.len() >= 16 {
+            break;
+        }
+        if !out.iter().any(|x| x.id == g.id) {
+            out.push(g.clone());
+        }
+    }
+    out
+}
+
 pub fn gen_case(ctx: &Ctx, stream: u64, idx: u64, nworlds: usize, allow_rcomp: bool) -> Case {
+    if stream == 2 || stream == 3 {
+        // flag sweep: one toggle (stream 2) or a pair (stream 3), API reference
+        // world against the real rcomp binary, everything else identical
+        let gs = sweep_grammars(ctx);
+        let g = gs[(idx % gs.len() as u64) as usize].clone();
+        let k = (idx / gs.len() as u64) as usize;
+        let mut spec = Spec::lr_default();
+        let label;
+        if stream == 2 {
+            let t = TOGGLES[k % TOGGLES.len()];
+            apply_toggle(&mut spec, t);
+            label = t.to_string();
+        } else {
+            let n = TOGGLES.len();
+            let (a, b) = (k % n, (k / n) % n);
+            apply_toggle(&mut spec, TOGGLES[a]);
+            apply_toggle(&mut spec, TOGGLES[b]);
+            label = format!("{}+{}", TOGGLES[a], TOGGLES[b]);
+        }
+        // documented preconditions of Settings
+        if !spec.glr {
+            spec.grammar_order = true;
+        }
+        let mut w = World::reference();
+        w.vehicle = if idx % 5 == 4 { Vehicle::RcompDir } else { Vehicle::Rcomp };
+        w.hash_seed = sub_seed(ctx.seed, 17_2, idx) | 1;
+        return Case { grammar: g, spec, worlds: vec![World::reference(), w], origin: format!("flag sweep: {label}") };
+    }
     let ss = sub_seed(ctx.seed, stream, idx);
     let mut rng = Rng::new(ss);
     let (grammar, spec, origin) = if stream == 0 {
@@ -172,6 +273,9 @@ pub struct Stats {
     pub samples: Vec<Value>,
     pub nb_ok: BTreeMap<u64, bool>,
     pub digests: Vec<String>,
+    pub flags_swept: BTreeMap<String, u64>,
+    pub flag_reach: BTreeMap<String, u64>,
+    pub base_outputs: BTreeMap<u64, u64>,
 }
 
 impl Stats {
@@ -188,6 +292,7 @@ impl Stats {
             "pairs": self.pairs.iter().collect::<Vec<_>>(),
             "nontrivial_pairs": self.nontrivial_pairs.iter().collect::<Vec<_>>(),
             "world_dims": self.world_dims,
+            "flags_swept": self.flags_swept, "flag_reach": self.flag_reach,
             "samples": self.samples,
             "digests": self.digests,
         })
@@ -281,6 +386,27 @@ pub fn check_case(env: &Env, case: &Case, idx: u64, st: &mut Stats) -> Vec<Viola
     if hard_failure(&reference.class) {
         st.excluded_panics += 1;
         return out;
+    }
+    if let Some(label) = case.origin.strip_prefix("flag sweep: ") {
+        bump(&mut st.flags_swept, label);
+        // reach: does the toggle change what the API writes for this grammar?
+        if reference.class.tag() == "ok" {
+            let gk = fnv64(&case.grammar.bytes);
+            let base_hash = match st.base_outputs.get(&gk) {
+                Some(h) => *h,
+                None => {
+                    let b = sim::run_world(env, &case.grammar, &Spec::lr_default(), &World::reference());
+                    st.compiles += 1;
+                    let h = b.files.iter().filter(|(n, _)| n.ends_with(".rs")).fold(0u64, |a, (n, v)| a ^ fnv64(n.as_bytes()) ^ v.iter().fold(0u64, |x, (_, bb)| x ^ fnv64(bb)));
+                    st.base_outputs.insert(gk, h);
+                    h
+                }
+            };
+            let this = reference.files.iter().filter(|(n, _)| n.ends_with(".rs")).fold(0u64, |a, (n, v)| a ^ fnv64(n.as_bytes()) ^ v.iter().fold(0u64, |x, (_, bb)| x ^ fnv64(bb)));
+            if this != base_hash {
+                bump(&mut st.flag_reach, label);
+            }
+        }
     }
     let mut compared_worlds = 0;
     let hash_opt = |b: Option<Vec<u8>>| b.map(|b| fnv64(&b)).unwrap_or(0);
